@@ -56,6 +56,15 @@ type world struct {
 	params    [2]*objmodel.Value
 	modelDead bool // a mutating operation left the model's domain: no further model comparison in this world
 
+	armed      *Op    // mutator to be run by the getter GM (enum via assign/spread/entries)
+	bodyRes    string // what the armed / for-in body mutator produced ("-" = not run)
+	mArmed     *Op
+	mBodyRes   string
+	mIter      *objmodel.ForInIterator // enumeration kept open across ops (model side)
+	mIterLoose bool                    // a trigger event ended the exact-order guarantee of the open enumeration
+	slotSeen   map[string]bool         // keys the open enumeration produced so far
+	slotObj    string                  // object of the open enumeration
+
 	inv     map[string]*invState
 	last    map[string]string // last dump per object
 	opIndex int
@@ -78,6 +87,9 @@ func (w *world) callV(name string, args ...goja.Value) goja.Value {
 }
 
 func (w *world) judge(what string, o gj.Outcome) {
+	if sw, ok := o.Panic.(*stopWorld); ok {
+		panic(sw) // a monitor fired inside a host callback (enumeration body): keep unwinding
+	}
 	switch {
 	case o.Panic != nil:
 		w.stop("go-panic-escaped", "Go panic escaped %s: %v\n%s", what, o.Panic, trunc(o.PanicStack, 2500))
@@ -306,6 +318,13 @@ func newWorld(tag string, c *Case, mon *monitors) *world {
 	w.objs["G1"] = w.callV("mkGetter", w.rt.ToValue("G1"), w.rt.ToValue(11)).(*goja.Object)
 	w.objs["G2"] = w.callV("mkGetter", w.rt.ToValue("G2"), w.objs["V2"]).(*goja.Object)
 	w.objs["GT"] = w.callV("mkThrowGetter", w.rt.ToValue("GT"), w.objs["E1"]).(*goja.Object)
+	w.objs["GM"] = w.callV("mkMutGetter", w.rt.ToValue("GM"), w.rt.ToValue(12), w.rt.ToValue(func(goja.FunctionCall) goja.Value {
+		if b := w.armed; b != nil {
+			w.armed = nil
+			w.bodyRes = w.issue(b)
+		}
+		return goja.Undefined()
+	})).(*goja.Object)
 	w.objs["St1"] = w.callV("mkSetter", w.rt.ToValue("St1")).(*goja.Object)
 	w.objs["St2"] = w.callV("mkSetter", w.rt.ToValue("St2")).(*goja.Object)
 	w.objs["StT"] = w.callV("mkThrowSetter", w.rt.ToValue("StT"), w.objs["E1"]).(*goja.Object)
@@ -508,6 +527,15 @@ func (w *world) buildModel() {
 	w.mobjs["G1"] = objmodel.NewFunction("G1", nil, w.logger("G1", func() objmodel.Value { return objmodel.Num(11) }, nil))
 	w.mobjs["G2"] = objmodel.NewFunction("G2", nil, w.logger("G2", func() objmodel.Value { return objmodel.ObjV(w.mobjs["V2"]) }, nil))
 	w.mobjs["GT"] = objmodel.NewFunction("GT", nil, w.logger("GT", nil, e1))
+	w.mobjs["GM"] = objmodel.NewFunction("GM", nil, func(m *objmodel.Machine, this objmodel.Value, args []objmodel.Value) (objmodel.Value, *objmodel.Throw) {
+		m.Log = append(m.Log, "GM("+objmodel.RenderValue(this)+")")
+		if b := w.mArmed; b != nil {
+			w.mArmed = nil
+			w.mBodyRes = w.modelOp(b)
+		}
+		return objmodel.Num(12), nil
+	})
+
 	w.mobjs["St1"] = objmodel.NewFunction("St1", nil, w.logger("St1", nil, nil))
 	w.mobjs["St2"] = objmodel.NewFunction("St2", nil, w.logger("St2", nil, nil))
 	w.mobjs["StT"] = objmodel.NewFunction("StT", nil, w.logger("StT", nil, e1))
@@ -540,7 +568,7 @@ func (w *world) buildModel() {
 		}
 		return objmodel.Undefined, nil
 	})
-	for _, n := range []string{"T", "P1", "P2", "D", "U", "V1", "V2", "E1", "G1", "G2", "GT", "St1", "St2", "StT"} {
+	for _, n := range []string{"T", "P1", "P2", "D", "U", "V1", "V2", "E1", "G1", "G2", "GT", "GM", "St1", "St2", "StT"} {
 		w.snapshot(n)
 	}
 }
